@@ -71,6 +71,7 @@ def aclHandler (a : AclState) (cid : Nat) (cmd : List Bytes) (sha : Bytes) : Acl
     | (a', .panic) => (a', .panic)
     | (a', .unmod) => (a', .unmod "auth")
   else if n == b "acl" && sub == b "setuser" then
+    if cmd.length < 3 then (a, .err wrongArgs) else
     match setUser a (cmd.drop 2) with
     | (a', .ok) => (a', .reply okReply)
     | (a', .err m) => (a', .err m)
